@@ -184,11 +184,28 @@ theorem decAux_rt (h : Option Header)
     rw [i32nn_le _ g2]
     have hpos : (encHeader hd).length ≠ 0 := by
       unfold encHeader; simp [le_length]
-    simp only [hpos, if_false, List.take_left']
+    -- the writer's `aux` block is exactly the header: nothing is left for the drain (fix 8288cb5)
+    simp only [hpos, if_false, List.take_left', List.drop_left']
     have := decHeader_rt hd g1 []
     rw [List.append_nil] at this
     rw [this]
-    simp
+
+/-- /repo `fix:` 8288cb5: an `aux` block longer than the tabix header in it — `l_aux = header +
+padding` — is read as that header, and ALL `l_aux` bytes are consumed: what follows the padding is what
+the reader goes on with -/
+theorem decAux_padded (hd : Header) (hw : hd.WF) (pad r : Bytes)
+    (hl : (encHeader hd).length + pad.length < 2^31) :
+    decAux (le 4 ((encHeader hd).length + pad.length) ++ (encHeader hd ++ (pad ++ r))) = .ok (some hd, r) := by
+  unfold decAux
+  rw [i32nn_le _ hl]
+  have hpos : (encHeader hd).length + pad.length ≠ 0 := by
+    unfold encHeader; simp [le_length]
+  have e1 : (encHeader hd ++ (pad ++ r)).take ((encHeader hd).length + pad.length) = encHeader hd ++ pad := by
+    rw [← List.append_assoc, ← List.length_append]; exact List.take_left' rfl
+  have e2 : (encHeader hd ++ (pad ++ r)).drop ((encHeader hd).length + pad.length) = r := by
+    rw [← List.append_assoc, ← List.length_append]; exact List.drop_left' rfl
+  simp only [hpos, if_false, e1, e2]
+  rw [decHeader_rt hd hw pad]
 
 theorem decU8_rt (n : Nat) (h : n < 256) (r : Bytes) : decU8 (le 4 n ++ r) = .ok (n, r) := by
   unfold decU8
